@@ -25,7 +25,7 @@ RULE = ('process programs (sync/async steps, waits with resume values, continuat
 ASSUMPTIONS = ['steps depend only on persisted state by construction (trace and scripts live in persisted members / ctx / inputs)',
                'WorkChains waiting on futures are not checkpoint points (they cannot be saved)']
 REQUIRED = ['restores', 'kinds/process', 'kinds/outline', 'transport/pickle', 'crash_in_wait', 'multi_restore', 'traces_compared', 'ctx_compared',
-            'inputs/none', 'inputs/empty', 'inputs/given', 'outline_nodes/if', 'outline_nodes/while', 'elif_or_else_body_crash', 'lost_work_restores', 'transport/mem-live', 'transport/pkfile-live', 'transport/bundle-live', 'codec_processes']
+            'inputs/none', 'inputs/empty', 'inputs/given', 'outline_nodes/if', 'outline_nodes/while', 'elif_or_else_body_crash', 'lost_work_restores', 'transport/mem-live', 'transport/pkfile-live', 'transport/bundle-live', 'codec_processes', 'midstep_saves']
 BOUNDS = {'quick': 'basic family + 12 random programs, 60 outlines, crash subsets <=2', 'thorough': '+150 random programs, 800 outlines, subsets <=3, persister/YAML transports'}
 
 
@@ -84,7 +84,8 @@ def gen_cases(tier, seed):
         if len(sets) > 25:
             sets = rng.sample(sets, 25)
         for cs in sets:
-            yield {'kind': 'outline', 'ast': ast, 'preds': preds, 'rets': rets, 'emit': i % 2 == 0, 'crash': cs, 'transport': rng.choice(transports)}
+            yield {'kind': 'outline', 'ast': ast, 'preds': preds, 'rets': rets, 'emit': i % 2 == 0, 'crash': cs, 'transport': rng.choice(transports),
+                   'midsave': i % 3 == 0}
         for cs in rng.sample(sets, min(len(sets), 6 if tier == 'quick' else 12)):
             yield {'kind': 'outline', 'ast': ast, 'preds': preds, 'rets': rets, 'emit': i % 2 == 0, 'crash': cs,
                    'transport': rng.choice(['mem-live', 'pkfile-live', 'bundle-live']), 'lag': rng.randint(0, 3)}
@@ -161,11 +162,12 @@ def run_case(case):
             cls = outlines.outline_class(case['ast'])
 
             def make(loop):
-                return cls(inputs={'preds': list(case['preds']), 'rets': list(case['rets']), 'emit': case['emit']}, loop=loop)
+                return cls(inputs={'preds': list(case['preds']), 'rets': list(case['rets']), 'emit': case['emit'], 'midsave': bool(case.get('midsave'))}, loop=loop)
 
             resume = lambda j: []  # noqa: E731
             label = 'outline'
-            refkey = repr((case['ast'], case['preds'], case['rets'], case['emit']))
+            refkey = repr((case['ast'], case['preds'], case['rets'], case['emit'], bool(case.get('midsave'))))
+            obs['midstep_saves'] = int(bool(case.get('midsave')))
             from pv.monitors import c09
             for k in c09._kinds(case['ast'], {}):
                 obs['outline_nodes'][k] = 1
